@@ -39,6 +39,23 @@ type Job struct {
 	DataType      gdbi.DataType
 	MarkTypes     map[string]gdbi.DataType
 	StepChecksums []string
+	// lock guards Status: the spooling goroutine updates it while clients poll it
+	lock sync.Mutex
+}
+
+// status returns a copy of the job's current status
+func (job *Job) status() *gripql.JobStatus {
+	job.lock.Lock()
+	defer job.lock.Unlock()
+	return &gripql.JobStatus{Id: job.Status.Id, Graph: job.Status.Graph, State: job.Status.State,
+		Count: job.Status.Count, Query: job.Status.Query, Timestamp: job.Status.Timestamp}
+}
+
+// update changes the job's status under its lock
+func (job *Job) update(f func(s *gripql.JobStatus)) {
+	job.lock.Lock()
+	defer job.lock.Unlock()
+	f(&job.Status)
 }
 
 func jobKey(graph, job string) string {
@@ -90,8 +107,8 @@ func (fs *FSResults) List(graph string) (chan string, error) {
 		defer close(out)
 		fs.jobs.Range(func(key, value interface{}) bool {
 			vJob := value.(*Job)
-			if vJob.Status.Graph == graph {
-				out <- vJob.Status.Id
+			if st := vJob.status(); st.Graph == graph {
+				out <- st.Id
 			}
 			return true
 		})
@@ -106,9 +123,9 @@ func (fs *FSResults) Search(graph string, Query []*gripql.GraphStatement) (chan 
 		defer close(out)
 		fs.jobs.Range(func(key, value interface{}) bool {
 			vJob := value.(*Job)
-			if vJob.Status.Graph == graph {
+			if st := vJob.status(); st.Graph == graph {
 				if JobMatch(qcs, vJob.StepChecksums) {
-					out <- &vJob.Status
+					out <- st
 				}
 			}
 			return true
@@ -146,26 +163,29 @@ func (fs *FSResults) Spool(graph string, stream *Stream) (string, error) {
 	fs.jobs.Store(jobKey(graph, jobName), job)
 	tbStream := MarshalStream(stream.Pipe, 4) //TODO: make worker count configurable
 	go func() {
-		job.Status.State = gripql.JobState_RUNNING
-		log.Printf("Starting Job: %#v", job)
+		job.update(func(s *gripql.JobStatus) { s.State = gripql.JobState_RUNNING })
+		log.Printf("Starting Job: %s", jobName)
 		defer resultFile.Close()
 		for i := range tbStream {
 			resultFile.Write(i)
 			resultFile.Write([]byte("\n"))
-			job.Status.Count += 1
+			job.update(func(s *gripql.JobStatus) { s.Count++ })
 		}
 		statusPath := filepath.Join(spoolDir, "status")
 		statusFile, err := os.Create(statusPath)
 		if err == nil {
 			defer statusFile.Close()
-			job.Status.State = gripql.JobState_COMPLETE
-			out, err := json.Marshal(job)
+			// the status file records the finished job; the state is published after it is written
+			final := job.status()
+			final.State = gripql.JobState_COMPLETE
+			out, err := json.Marshal(&Job{Status: *final, DataType: job.DataType, MarkTypes: job.MarkTypes, StepChecksums: job.StepChecksums})
 			if err == nil {
 				statusFile.Write([]byte(fmt.Sprintf("%s\n", out)))
 			}
-			log.Printf("Job Done: %s (%d results)", jobName, job.Status.Count)
+			job.update(func(s *gripql.JobStatus) { s.State = gripql.JobState_COMPLETE })
+			log.Printf("Job Done: %s (%d results)", jobName, final.Count)
 		} else {
-			job.Status.State = gripql.JobState_ERROR
+			job.update(func(s *gripql.JobStatus) { s.State = gripql.JobState_ERROR })
 			log.Printf("Job Error: %s %s", jobName, err)
 		}
 	}()
@@ -175,7 +195,7 @@ func (fs *FSResults) Spool(graph string, stream *Stream) (string, error) {
 func (fs *FSResults) Stream(ctx context.Context, graph, id string) (*Stream, error) {
 	if v, ok := fs.jobs.Load(jobKey(graph, id)); ok {
 		vJob := v.(*Job)
-		if vJob.Status.State == gripql.JobState_COMPLETE {
+		if vJob.status().State == gripql.JobState_COMPLETE {
 			resultFile := filepath.Join(fs.BaseDir, sanitize.Name(graph), sanitize.Name(id), "results")
 			results, err := os.Open(resultFile)
 			if err != nil {
@@ -213,7 +233,7 @@ func (fs *FSResults) Stream(ctx context.Context, graph, id string) (*Stream, err
 func (fs *FSResults) Delete(graph, id string) error {
 	if v, ok := fs.jobs.Load(jobKey(graph, id)); ok {
 		vJob := v.(*Job)
-		if vJob.Status.State == gripql.JobState_RUNNING || vJob.Status.State == gripql.JobState_QUEUED {
+		if st := vJob.status().State; st == gripql.JobState_RUNNING || st == gripql.JobState_QUEUED {
 			return fmt.Errorf("Job cancel not yet implemented")
 		}
 		fs.jobs.Delete(jobKey(graph, id))
@@ -226,8 +246,7 @@ func (fs *FSResults) Delete(graph, id string) error {
 func (fs *FSResults) Status(graph, id string) (*gripql.JobStatus, error) {
 	if v, ok := fs.jobs.Load(jobKey(graph, id)); ok {
 		vJob := v.(*Job)
-		a := vJob.Status
-		return &a, nil
+		return vJob.status(), nil
 	}
 	return nil, fmt.Errorf("Job Not Found")
 }
